@@ -135,6 +135,16 @@ type clientState struct {
 	cookie string // session cookie value the client holds ("" = none)
 }
 
+// skip1xx is a client-side view of a response: informational responses are not the answer.
+type skip1xx struct{ *httptest.ResponseRecorder }
+
+func (s skip1xx) WriteHeader(code int) {
+	if code >= 100 && code < 200 && code != 101 {
+		return
+	}
+	s.ResponseRecorder.WriteHeader(code)
+}
+
 func newJar() http.CookieJar {
 	j, _ := cookiejar.New(&cookiejar.Options{PublicSuffixList: publicsuffix.List})
 	return j
@@ -148,6 +158,12 @@ func eval(tier string, idx int) vx.Exec {
 	var seen *http.Request
 	backend := http.HandlerFunc(func(w http.ResponseWriter, r *http.Request) {
 		seen = r.Clone(r.Context())
+		if len(cur.reply)%2 == 1 {
+			// an informational response first, as httputil.ReverseProxy passes it on (103 Early Hints)
+			w.Header().Set("Link", "</style.css>; rel=preload")
+			w.WriteHeader(103)
+			w.Header().Del("Link")
+		}
 		for _, sc := range cur.reply {
 			w.Header().Add("Set-Cookie", sc)
 		}
@@ -182,7 +198,7 @@ func eval(tier string, idx int) vx.Exec {
 		seen = nil
 		rec := httptest.NewRecorder()
 		t0 := time.Now()
-		h.ServeHTTP(rec, r)
+		h.ServeHTTP(skip1xx{rec}, r)
 		t1 := time.Now()
 		where := fmt.Sprintf("step %d of %v (client %d, %s%s, reply %q)", step+1, seq, cur.client, cur.host, cur.path, cur.reply)
 		if seen == nil {
